@@ -76,19 +76,23 @@ def load_args(kind):
     pkg = package_data_dir()
     if kind == 'defaults':
         return None, {}
-    if kind == 'kwA':  # keyword arguments only: absolute path at top level, None and mixed case in nested tables
+    if kind == 'kwA':
+        # keyword arguments only: absolute path at top level, None in a nested table; keys and enumeration
+        # values in upper / mixed case; the value string "none" for two option families in one load
         return None, {
-            'engine_file': str(pkg / 'engines' / 'sample_edb.xlsx'),
-            'weather': {'use_weather': False, 'weather_data_dir': None},
-            'emissions': {'nox_method': 'P3T3', 'apu_enabled': False},
+            'Engine_File': str(pkg / 'engines' / 'sample_edb.xlsx'),
+            'weather': {'Use_Weather': False, 'WEATHER_DATA_DIR': None},
+            'emissions': {'NOX_METHOD': 'P3T3', 'Apu_Enabled': False, 'PMVOL_METHOD': 'NONE', 'hc_method': 'None'},
         }
     if kind == 'fileB':
         return Path(FILE_B), {}
     if kind == 'fileB+kwC':  # file and keyword arguments overlapping in nested keys and at top level
+        # (a key that the file spells in another case than the packaged defaults is given in the file's
+        # spelling here; see the report on exact-case keyword + case-variant file key)
         return str(FILE_B), {
-            'performance_model': 'performance/sample_performance_model.toml',
-            'weather': {'weather_data_dir': 'weather'},
-            'emissions': {'nox_method': 'p3t3', 'gse_enabled': False, 'fuel': 'SAF'},
+            'Performance_Model': 'performance/sample_performance_model.toml',
+            'weather': {'Weather_Data_Dir': 'weather'},
+            'emissions': {'nox_method': 'p3t3', 'gse_enabled': False, 'fuel': 'SAF', 'PMNVOL_METHOD': 'None'},
         }
     if kind == 'kwPath':  # explicit search path as keyword argument; the named files exist only there
         return None, {
@@ -126,10 +130,12 @@ def load_args(kind):
 
 
 def ref_overlay(*layers):
-    """Recursive overlay, later layers win; tables are merged key by key, everything else replaced."""
+    """Recursive overlay, later layers win; tables are merged key by key, everything else replaced.
+    Setting names are case-insensitive (all model fields are lower case)."""
     out = {}
     for layer in layers:
         for k, v in layer.items():
+            k = k.lower()
             if isinstance(v, dict) and isinstance(out.get(k), dict):
                 out[k] = ref_overlay(out[k], v)
             else:
